@@ -58,6 +58,11 @@ def run(pid, spec, tier, seed):
                 raise RuntimeError("driver build failed:\n" + out[-3000:])
         audit = C.lean_audit(pid, spec["lean"])
         proof_broken = list(audit["failed"])
+        if tier == "thorough" and audit["ok"]:
+            ok, out = C.leanchecker(spec["lean"])
+            notes.append("leanchecker re-checked %s: %s" % (" ".join(spec["lean"]), "ok" if ok else "FAILED"))
+            if not ok:
+                proof_broken.append("leanchecker rejects the compiled modules: " + out[-500:])
 
         # 2. correspondence + monitors
         runs = []
